@@ -85,6 +85,16 @@ def rule_ab(ctx):
                      "result is type(self)(img=self.img[selection], **metadata()) with only dimensions and origin overridden"):
             ctx.ob(Rb, f.qname, what + " (folded; term equals the documented construction)", True, "", f.node)
         return
+    # named contradiction on the folded terms: a box defined by points (VoxelArray / CoordinateArray) may lie partly outside the image; its
+    # lower bound has to be clipped at 0 *before* slice.indices(), which resolves a negative bound from the end of the axis instead of clipping
+    import re as _re
+    for label, dim, eq, got in cmp_ or []:
+        if eq is False and label in ("VoxelArray", "CoordinateArray") and isinstance(got, str):
+            raw = _re.findall(r"slice_start\((?!max\(0, )(np\.min\([^()]*(?:\([^()]*\)[^()]*)*\))", got)
+            if raw:
+                ctx.ob(Ra, f.qname, f"subregion({label}) in {dim}d: the lower bound of the point-defined box is clipped at 0 before it is normalised", False,
+                       f"`{raw[0][:60]}` reaches slice.indices() unclipped: for a box that overhangs the low-index side the negative bound is resolved from the end of the axis "
+                       "(numpy semantics), the sub-image is empty or taken from the wrong place", f.node, evidence=True)
     if cmp_ and any(c[2] is True for c in cmp_) and not any(c[2] is False for c in cmp_):
         # part of the cases has the documented normal form, the rest leaves the folding language (e.g. a vectorised bounding box): the
         # method no longer has the statement shape the syntactic rules below read, so they are not applied; the undecided cases are reported
